@@ -3,10 +3,18 @@
 //!   harness run                         read case lines on stdin, run the real anthem code,
 //!                                       print one result line per case
 //!   harness ops                         list operations
+#[allow(dead_code)]
 mod conv;
+#[allow(dead_code, unused_imports)]
+mod ext {
+    include!(concat!(env!("OUT_DIR"), "/ext_gen.rs"));
+}
+#[allow(dead_code)]
 mod generate;
 mod ops;
+#[allow(dead_code)]
 mod rng;
+#[allow(dead_code)]
 mod sexp;
 
 use std::io::{BufRead, Write};
